@@ -792,41 +792,28 @@ func postData(req *http.Request, logBody bool) (*PostData, error) {
 		br = ioutil.NopCloser(httputil.NewChunkedReader(br))
 	}
 
+	body, err := ioutil.ReadAll(br)
+	if err != nil {
+		return nil, err
+	}
+
 	switch mt {
 	case "multipart/form-data":
-		mpr := multipart.NewReader(br, ps["boundary"])
-
-		for {
-			p, err := mpr.NextPart()
-			if err == io.EOF {
-				break
-			}
-			if err != nil {
-				return nil, err
-			}
-			defer p.Close()
-
-			body, err := ioutil.ReadAll(p)
-			if err != nil {
-				return nil, err
-			}
-
-			pd.Params = append(pd.Params, Param{
-				Name:        p.FormName(),
-				Filename:    p.FileName(),
-				ContentType: p.Header.Get("Content-Type"),
-				Value:       string(body),
-			})
-		}
-	case "application/x-www-form-urlencoded":
-		body, err := ioutil.ReadAll(br)
+		params, err := multipartParams(body, ps["boundary"])
 		if err != nil {
-			return nil, err
+			// Not the form its Content-Type announces: the request is logged
+			// with the body as it is rather than not at all.
+			log.Errorf("har: cannot parse multipart post data: %v", err)
+			pd.Text = string(body)
+			break
 		}
-
+		pd.Params = params
+	case "application/x-www-form-urlencoded":
 		vs, err := url.ParseQuery(string(body))
 		if err != nil {
-			return nil, err
+			log.Errorf("har: cannot parse urlencoded post data: %v", err)
+			pd.Text = string(body)
+			break
 		}
 
 		for n, vs := range vs {
@@ -838,13 +825,36 @@ func postData(req *http.Request, logBody bool) (*PostData, error) {
 			}
 		}
 	default:
-		body, err := ioutil.ReadAll(br)
-		if err != nil {
-			return nil, err
-		}
-
 		pd.Text = string(body)
 	}
 
 	return pd, nil
+}
+
+func multipartParams(body []byte, boundary string) ([]Param, error) {
+	params := []Param{}
+	mpr := multipart.NewReader(bytes.NewReader(body), boundary)
+
+	for {
+		p, err := mpr.NextPart()
+		if err == io.EOF {
+			return params, nil
+		}
+		if err != nil {
+			return nil, err
+		}
+
+		value, err := ioutil.ReadAll(p)
+		p.Close()
+		if err != nil {
+			return nil, err
+		}
+
+		params = append(params, Param{
+			Name:        p.FormName(),
+			Filename:    p.FileName(),
+			ContentType: p.Header.Get("Content-Type"),
+			Value:       string(value),
+		})
+	}
 }
